@@ -12,23 +12,35 @@
 (*                                                                         *)
 (* Universe                                                                *)
 (*   simple glyphs:  every on/off pattern of contours of 1..5 points, one  *)
-(*     to three contours, coordinates whose deltas cover zero / one byte   *)
-(*     +- / 255,256 boundary / two bytes on both axes, six encodings of    *)
-(*     the same points (short, same, zero deltas written as short 0 with   *)
-(*     either sign or as words, repeat runs: none / maximal - spanning     *)
-(*     contours - / count 0 / split), with and without instructions;       *)
+(*     to three contours (four contours of two points), coordinates whose  *)
+(*     deltas cover zero / one byte +- / 255,256 boundary / two bytes on   *)
+(*     both axes, points at the corners of the signed 16-bit range, eight  *)
+(*     encodings of the same points (short, same, zero deltas written as   *)
+(*     short 0 with either sign or as words, repeat runs: none / maximal - *)
+(*     spanning contours - / count 0 / split, OVERLAP_SIMPLE on the first  *)
+(*     flag), with and without instructions;                               *)
+(*   records with numberOfContours = 0 (header + 0..n instruction bytes),  *)
+(*     visited themselves and as components;                               *)
 (*   composites: trees of depth 1..3 over two leaves (consecutive          *)
 (*     off-curve points, an all-off-curve contour), every transform kind   *)
 (*     (none, scale, x/y scale, two-by-two: rotation, shear, symmetric,    *)
 (*     general; negative and >1 factors), byte and word offsets, extra     *)
-(*     flag bits; chains up to the nesting bound and one beyond; cycles.   *)
+(*     flag bits; SCALED_COMPONENT_OFFSET under every diagonal matrix      *)
+(*     (alone, with UNSCALED_COMPONENT_OFFSET, under a parent transform,   *)
+(*     on a composite child); components placed by point numbers (byte    *)
+(*     and word numbers, six matrices, on a point of the first or of the   *)
+(*     second component, the moved component simple or composite, under a  *)
+(*     parent transform); WE_HAVE_INSTRUCTIONS on the first / last         *)
+(*     component; chains up to the nesting bound and beyond; cycles.       *)
 (***************************************************************************)
 EXTENDS Glyf, Json, TLC
 
 CONSTANTS LongNs,         \* point counts of the long single-flag contours (repeat-count byte boundary 255/256)
           L1, L2, L3,     \* contour lengths used for glyphs of one, two, three contours
           Variants,       \* coordinate variants
-          TK2, TK3        \* indices (into TKs) of the transforms used at the levels of depth-2 / depth-3 trees
+          TK2, TK3,       \* indices (into TKs) of the transforms used at the levels of depth-2 / depth-3 trees
+          ZeroInstr,      \* instruction lengths of the records with numberOfContours = 0
+          L4              \* contour lengths of the glyphs of four contours
 
 VARIABLES cs, done
 vars == <<cs, done>>
@@ -38,20 +50,28 @@ vars == <<cs, done>>
 AllPats(L) == UNION {[1 .. n -> BOOLEAN] : n \in L}
 
 Modes == <<
-  [short |-> TRUE,  same |-> TRUE,  zero |-> "word",   rep |-> "max"],
-  [short |-> FALSE, same |-> FALSE, zero |-> "word",   rep |-> "none"],
-  [short |-> TRUE,  same |-> FALSE, zero |-> "short+", rep |-> "split"],
-  [short |-> TRUE,  same |-> FALSE, zero |-> "short-", rep |-> "zero"],
-  [short |-> FALSE, same |-> TRUE,  zero |-> "word",   rep |-> "max"],
-  [short |-> TRUE,  same |-> TRUE,  zero |-> "word",   rep |-> "none"] >>
+  [short |-> TRUE,  same |-> TRUE,  zero |-> "word",   rep |-> "max",   ovl |-> FALSE],
+  [short |-> FALSE, same |-> FALSE, zero |-> "word",   rep |-> "none",  ovl |-> FALSE],
+  [short |-> TRUE,  same |-> FALSE, zero |-> "short+", rep |-> "split", ovl |-> FALSE],
+  [short |-> TRUE,  same |-> FALSE, zero |-> "short-", rep |-> "zero",  ovl |-> FALSE],
+  [short |-> FALSE, same |-> TRUE,  zero |-> "word",   rep |-> "max",   ovl |-> FALSE],
+  [short |-> TRUE,  same |-> TRUE,  zero |-> "word",   rep |-> "none",  ovl |-> FALSE],
+  \* OVERLAP_SIMPLE on the first flag (it breaks the first repeat run, nothing else)
+  [short |-> TRUE,  same |-> TRUE,  zero |-> "word",   rep |-> "max",   ovl |-> TRUE],
+  [short |-> FALSE, same |-> FALSE, zero |-> "word",   rep |-> "split", ovl |-> TRUE] >>
+BaseModes == 1 .. 6
+OvlModes == {7, 8}
 
 PalX == <<0, 5, -7, 300, -400, 255, -255, 256, -256, 0, 1, -1>>
 PalY == <<9, 0, -300, 0, 6, -255, 400, -1, 255, -8, 0, 256>>
 DX(k, v) == PalX[((5 * k + 3 * v) % 12) + 1]
 DY(k, v) == LET d == PalY[((7 * k + v) % 12) + 1] IN IF d = 0 /\ DX(k, v) = 0 THEN 11 ELSE d
+\* variant 9: up to four points at the corners of the signed 16-bit range (every delta still fits a word)
+ExtX == <<-32768, -1, 32766, 32767>>
+ExtY == <<32767, 0, -32767, -32768>>
 RECURSIVE AbsX(_, _), AbsY(_, _)
-AbsX(k, v) == IF k = 0 THEN 0 ELSE AbsX(k - 1, v) + DX(k, v)
-AbsY(k, v) == IF k = 0 THEN 0 ELSE AbsY(k - 1, v) + DY(k, v)
+AbsX(k, v) == IF v = 9 THEN ExtX[k] ELSE IF k = 0 THEN 0 ELSE AbsX(k - 1, v) + DX(k, v)
+AbsY(k, v) == IF v = 9 THEN ExtY[k] ELSE IF k = 0 THEN 0 ELSE AbsY(k - 1, v) + DY(k, v)
 
 Before(pats, i) == Len(Flatten(SubSeq(pats, 1, i - 1), 1))
 ContoursOf(pats, v) ==
@@ -86,11 +106,11 @@ Extras == <<0, 516, 5120>>     \* ROUND_XY_TO_GRID + USE_MY_METRICS; UNSCALED_CO
 TKs == [t \in 1 .. (Len(Offs) * Len(Mats)) |->
           LET o == Offs[((t - 1) % Len(Offs)) + 1]
               m == Mats[((t - 1) \div Len(Offs)) + 1]
-          IN [words |-> o.words, a1 |-> o.a1, a2 |-> o.a2, kind |-> m.kind,
+          IN [words |-> o.words, pts |-> FALSE, a1 |-> o.a1, a2 |-> o.a2, kind |-> m.kind,
               xx |-> m.xx, yx |-> m.yx, xy |-> m.xy, yy |-> m.yy, extra |-> Extras[(t % 3) + 1]]]
 AllTK == 1 .. Len(TKs)
 C(t, g) == [gid |-> g] @@ TKs[t]
-Plain(g, dx) == [gid |-> g, words |-> FALSE, a1 |-> dx, a2 |-> 0, kind |-> "none",
+Plain(g, dx) == [gid |-> g, words |-> FALSE, pts |-> FALSE, a1 |-> dx, a2 |-> 0, kind |-> "none",
                  xx |-> 16384, yx |-> 0, xy |-> 0, yy |-> 16384, extra |-> 0]
 
 \* a composite case: defs[k] = component list of glyph 2 + k; root = the last one
@@ -109,17 +129,64 @@ CompDefs ==
   \cup {<< <<Plain(3, 7)>> >>, << <<Plain(4, 7)>>, <<Plain(3, 1)>> >>,                 \* cycles
          << <<Plain(1, 1), Plain(3, 2)>> >>}
 
-NoMode == [short |-> FALSE, same |-> FALSE, zero |-> "word", rep |-> "none"]
+\* ---- offsets that are scaled, components placed by point numbers, composites with instructions -------------
+\* t = 5 * (matrix - 1) + offset: matrices 2 .. 6 are diagonal (scale, x/y scale), offsets 2 .. 5 are not zero
+TKDiag == {t \in 6 .. 30 : (t - 1) % 5 # 0}
+Sc(t, g)     == [C(t, g) EXCEPT !.extra = SCALED_OFFSET]
+ScBoth(t, g) == [C(t, g) EXCEPT !.extra = SCALED_OFFSET + UNSCALED_OFFSET]
+In(t, g)     == [C(t, g) EXCEPT !.extra = HAVE_INSTR]
+\* component g under the matrix of TKs[u], its point q put on point p of what the composite holds so far
+An(u, g, p, q, w) == [C(u, g) EXCEPT !.pts = TRUE, !.a1 = p, !.a2 = q, !.words = w, !.extra = 0]
+AnMats == {1, 6, 11, 21, 31, 46}        \* none, scale 1/2, scale -1, x/y scale, rotation, general two-by-two
+AnPQ == {<<0, 0>>, <<3, 5>>, <<2, 3>>}  \* LeafA has points 0 .. 3, LeafB 0 .. 5
+
+ScaledDefs ==
+       {<< <<Sc(t, 1)>> >> : t \in TKDiag \cup {2, 4}}
+  \cup {<< <<ScBoth(t, 1)>> >> : t \in {7, 14, 23}}
+  \cup {<< <<Sc(t, 2), Sc(u, 1)>> >> : t \in {9, 28}, u \in {13, 20}}
+  \cup {<< <<Sc(t, 1)>>, <<C(u, 3)>> >> : t \in {8, 14, 29}, u \in TK3}          \* under a parent transform
+  \cup {<< <<C(u, 1)>>, <<Sc(t, 3)>> >> : t \in {8, 14, 29}, u \in TK3}          \* on a composite child
+AnchorDefs ==
+       {<< <<C(t, 1), An(u, 2, pq[1], pq[2], w)>> >> : t \in {1, 2, 9}, u \in AnMats, pq \in AnPQ, w \in BOOLEAN}
+  \cup {<< <<C(1, 1), An(1, 2, 3, 0, FALSE), An(u, 1, 9, 3, FALSE)>> >> : u \in AnMats}   \* on a point of the 2nd component
+  \cup {<< <<C(t, 1)>>, <<C(1, 2), An(u, 3, 4, 1, FALSE)>> >> : t \in {2, 9}, u \in AnMats}   \* the moved component is a composite
+  \cup {<< <<C(1, 1), An(u, 2, pq[1], pq[2], FALSE)>>, <<C(t, 3)>> >> : t \in TK3, u \in {1, 6, 46}, pq \in AnPQ}
+InstrDefs ==
+       {<< <<In(t, 1)>> >> : t \in {1, 12, 33}}
+  \cup {<< <<In(t, 1), C(u, 2)>> >> : t \in {4, 33}, u \in {2, 17}}
+  \cup {<< <<C(t, 1), In(u, 2)>> >> : t \in {4, 33}, u \in {2, 17}}
+CInstr == <<176, 1, 45, 0, 2>>
+
+\* ---- records with numberOfContours = 0 (glyph 2 of a "zero" case): a header, instructions, no point -------
+ZInstr(n) == [k \in 1 .. n |-> IF k % 2 = 0 THEN 1 ELSE 0]
+ZeroDefs ==
+       {<<>>}                                                                          \* visited itself
+  \cup {<< <<C(t, 2)>> >> : t \in {1, 12}}                                             \* the only component
+  \cup {<< <<C(t, 2), C(u, 1)>> >> : t \in {1, 12}, u \in {2, 17}}
+  \cup {<< <<C(u, 1), C(t, 2)>> >> : t \in {1, 12}, u \in {2, 17}}
+  \cup {<< <<C(t, 2)>>, <<C(u, 3), C(t, 1)>> >> : t \in {2}, u \in {17, 33}}
+
+NoMode == [short |-> FALSE, same |-> FALSE, zero |-> "word", rep |-> "none", ovl |-> FALSE]
 SimpleCase(p, v, m) == [kind |-> "simple", pats |-> p, v |-> v, mode |-> m, defs |-> <<>>]
 \* Init draws a case through nested quantifiers (IsCase) instead of cs \in (one big union set): TLC then
 \* enumerates the initial states one by one and never has to build and normalise a set of ~10^5 nested
 \* records (single-threaded; the thorough tier did not get past it within 40 minutes).
 IsCase(x) ==
-  \/ \E p \in AllPats(L1), v \in Variants, m \in 1 .. Len(Modes) : x = SimpleCase(<<p>>, v, m)
-  \/ \E p \in AllPats(L2), q \in AllPats(L2), v \in Variants, m \in 1 .. Len(Modes) : x = SimpleCase(<<p, q>>, v, m)
-  \/ \E p \in AllPats(L3), q \in AllPats(L3), r \in AllPats(L3), v \in Variants, m \in 1 .. Len(Modes) :
+  \/ \E p \in AllPats(L1), v \in Variants, m \in BaseModes : x = SimpleCase(<<p>>, v, m)
+  \/ \E p \in AllPats(L2), q \in AllPats(L2), v \in Variants, m \in BaseModes : x = SimpleCase(<<p, q>>, v, m)
+  \/ \E p \in AllPats(L3), q \in AllPats(L3), r \in AllPats(L3), v \in Variants, m \in BaseModes :
         x = SimpleCase(<<p, q, r>>, v, m)
-  \/ \E d \in CompDefs : x = [kind |-> "composite", pats |-> <<>>, v |-> 0, mode |-> 0, defs |-> d]
+  \* OVERLAP_SIMPLE on the first flag
+  \/ \E p \in AllPats(L1), v \in Variants, m \in OvlModes : x = SimpleCase(<<p>>, v, m)
+  \/ \E p \in AllPats(L3), q \in AllPats(L3), m \in OvlModes : x = SimpleCase(<<p, q>>, 0, m)
+  \* points at the corners of the coordinate range
+  \/ \E p \in AllPats({2, 4}), m \in {1, 2, 6} : x = SimpleCase(<<p>>, 9, m)
+  \* four contours
+  \/ \E p \in AllPats(L4), q \in AllPats(L4), r \in AllPats(L4), t \in AllPats(L4), m \in {1, 3} :
+        x = SimpleCase(<<p, q, r, t>>, 2, m)
+  \/ \E d \in CompDefs \cup ScaledDefs \cup AnchorDefs \cup InstrDefs :
+        x = [kind |-> "composite", pats |-> <<>>, v |-> 0, mode |-> 0, defs |-> d]
+  \/ \E d \in ZeroDefs, n \in ZeroInstr : x = [kind |-> "zero", pats |-> <<>>, v |-> n, mode |-> 0, defs |-> d]
   \* one contour of n on-curve points that all carry the same flag byte: the repeat count reaches 255 and the
   \* run has to be split (v = n; modes 1 and 3: maximal runs / first flag plain then a repeated one)
   \/ \E n \in LongNs, m \in {1, 3} : x = [kind |-> "long", pats |-> <<>>, v |-> n, mode |-> m, defs |-> <<>>]
@@ -137,8 +204,9 @@ GlyphsOf(c) ==
           [gid |-> 1, rec |-> EncodeSimple(LongContour(c.v), Modes[c.mode], <<>>)] >>
   ELSE << [gid |-> 0, rec |-> <<>>],
           [gid |-> 1, rec |-> EncodeSimple(LeafA, Modes[1], <<>>)],
-          [gid |-> 2, rec |-> EncodeSimple(LeafB, Modes[3], <<>>)] >>
-       \o [k \in 1 .. Len(c.defs) |-> [gid |-> 2 + k, rec |-> EncodeComposite(c.defs[k])]]
+          [gid |-> 2, rec |-> IF c.kind = "zero" THEN EncodeSimple(<<>>, Modes[2], ZInstr(c.v))
+                              ELSE EncodeSimple(LeafB, Modes[3], <<>>)] >>
+       \o [k \in 1 .. Len(c.defs) |-> [gid |-> 2 + k, rec |-> EncodeComposite(c.defs[k], CInstr)]]
 RootOf(c) == IF c.kind \in {"simple", "long"} THEN 1 ELSE 2 + Len(c.defs)
 NumOf(c) == Len(GlyphsOf(c))
 
@@ -157,7 +225,14 @@ RoundTripOK(c) ==
        \* the flag array really uses a repeat count of 255 when the run is long enough
        /\ (c.v >= 257 => \E k \in 1 .. Len(GlyphsOf(c)[2].rec) - 1 :
                             GlyphsOf(c)[2].rec[k + 1] = 255 /\ Bit(GlyphsOf(c)[2].rec[k], REPEAT))
-  ELSE \A k \in 1 .. Len(c.defs) :
+  ELSE /\ (c.kind = "zero" =>
+            LET G == ParseGlyph(GlyphsOf(c)[3].rec) IN
+            /\ Len(GlyphsOf(c)[3].rec) = 12 + c.v
+            /\ G.kind = "simple" /\ G.contours = <<>>
+            \* visited itself or only through components: nothing of it is drawn
+            /\ Result(c).st = "ok"
+            /\ (c.defs = <<>> => Result(c).cs = <<>>))
+       /\ \A k \in 1 .. Len(c.defs) :
          LET G == ParseGlyph(GlyphsOf(c)[3 + k].rec) IN
          /\ G.kind = "composite" /\ Len(G.comps) = Len(c.defs[k])
          /\ \A j \in 1 .. Len(c.defs[k]) :
@@ -223,6 +298,7 @@ ApplyFlat(m, p) == [x |-> MulBig(p.x, m.xx) + MulBig(p.y, m.xy) + m.ox,
                     y |-> MulBig(p.x, m.yx) + MulBig(p.y, m.yy) + m.oy, on |-> p.on]
 IsChain(c) == /\ c.kind = "composite"
               /\ \A k \in 1 .. Len(c.defs) : Len(c.defs[k]) = 1
+              /\ \A k \in 1 .. Len(c.defs) : ~c.defs[k][1].pts /\ ~Bit(c.defs[k][1].extra, SCALED_OFFSET)
               /\ c.defs[1][1].gid \in {1, 2}
               /\ \A k \in 2 .. Len(c.defs) : c.defs[k][1].gid = 1 + k
 RECURSIVE ChainMap(_, _)
@@ -237,14 +313,42 @@ ChainOK(c) ==
 
 \* (4) nesting bound, cycles, contour counts
 DepthOK(c) ==
-  c.kind = "composite" =>
+  c.kind \in {"composite", "zero"} /\ c.defs # <<>> =>
     LET r == Result(c) IN
     /\ (IsChain(c) => (r.st = "ok") = (Len(c.defs) <= MaxDepth))
     /\ r.st \in {"ok", "err"}
     /\ (r.st = "ok" => TracesOutline(r, RefCommands(r.cs)))
 
+\* (5) a scaled offset: the single component is the leaf moved by the offset and then put under the matrix
+LeafOf(g) == IF g = 1 THEN LeafA ELSE LeafB
+ScaledOK(c) ==
+  c.kind = "composite" /\ Len(c.defs) = 1 /\ Len(c.defs[1]) = 1 /\ c.defs[1][1].extra = SCALED_OFFSET =>
+    LET d == c.defs[1][1]  leaf == LeafOf(d.gid)  r == Result(c) IN
+    /\ r.st = "ok"
+    /\ r.cs = [i \in 1 .. Len(leaf) |-> [j \in 1 .. Len(leaf[i]) |->
+                 [x |-> MulF((leaf[i][j].x + d.a1) * FU, d.xx), y |-> MulF((leaf[i][j].y + d.a2) * FU, d.yy),
+                  on |-> leaf[i][j].on]]]
+    \* the two readings of a scaled offset differ only where a factor is negative
+    /\ LET h == Outline(GlyphsOf(c), NumOf(c), RootOf(c), 0, [NoDev EXCEPT !.hypot = TRUE]) IN
+       (h.cs = r.cs) = ((d.xx >= 0 \/ d.a1 = 0) /\ (d.yy >= 0 \/ d.a2 = 0))
+
+\* (6) point numbers: in the delivered outline the two named points coincide
+NPts(g) == Len(FlatPts(LeafOf(g)))
+RECURSIVE PtsBefore(_, _)
+PtsBefore(comps, j) == IF j = 1 THEN 0 ELSE PtsBefore(comps, j - 1) + NPts(comps[j - 1].gid)
+AnchorOK(c) ==
+  c.kind = "composite" /\ Len(c.defs) = 1 /\ (\A j \in 1 .. Len(c.defs[1]) : c.defs[1][j].gid \in {1, 2}) =>
+    \A j \in 1 .. Len(c.defs[1]) :
+      c.defs[1][j].pts =>
+        LET d == c.defs[1][j]  r == Result(c)  P == FlatPts(r.cs) IN
+        /\ r.st = "ok"
+        /\ P[d.a1 + 1].x = P[PtsBefore(c.defs[1], j) + d.a2 + 1].x
+        /\ P[d.a1 + 1].y = P[PtsBefore(c.defs[1], j) + d.a2 + 1].y
+
 DesignOK ==
   done =>
+    /\ ScaledOK(cs)
+    /\ AnchorOK(cs)
     /\ RoundTripOK(cs)
     /\ (cs.kind = "simple" => \A c \in {ToFine(ContoursOf(cs.pats, cs.v)[i]) : i \in 1 .. Len(cs.pats)} : ContourOK(c))
     /\ (cs.kind \in {"simple", "long"} => LET r == Result(cs) IN
@@ -258,14 +362,24 @@ Describe(c) ==
   THEN [kind |-> "simple", pats |-> c.pats, v |-> c.v, mode |-> Modes[c.mode], defs |-> <<>>]
   ELSE IF c.kind = "long"
   THEN [kind |-> "long", pats |-> <<>>, v |-> c.v, mode |-> Modes[c.mode], defs |-> <<>>]
-  ELSE [kind |-> "composite", pats |-> <<>>, v |-> 0, mode |-> NoMode, defs |-> c.defs]
+  ELSE [kind |-> c.kind, pats |-> <<>>, v |-> c.v, mode |-> NoMode, defs |-> c.defs]
 
 EmitCase ==
   done =>
-    LET r == Result(cs) IN
+    LET r == Result(cs)
+        \* what the named readings of Outline would deliver (for the driver's planted self-check events)
+        special == cs.kind = "composite" /\ \E k \in 1 .. Len(cs.defs) : \E j \in 1 .. Len(cs.defs[k]) :
+                      cs.defs[k][j].pts \/ cs.defs[k][j].extra = SCALED_OFFSET
+        Under(dev) == IF ~special THEN <<>>
+                      ELSE LET q == Outline(GlyphsOf(cs), NumOf(cs), RootOf(cs), 0, dev) IN
+                           IF q.st = "ok" THEN RefCommands(q.cs) ELSE <<>>
+    IN
     PrintT(<<"CASE", ToJson([abs |-> Describe(cs), glyphs |-> GlyphsOf(cs), n |-> NumOf(cs), root |-> RootOf(cs),
                              st |-> r.st, exact |-> r.exact,
-                             exp |-> IF r.st = "ok" THEN RefCommands(r.cs) ELSE <<>>])>>)
+                             exp |-> IF r.st = "ok" THEN RefCommands(r.cs) ELSE <<>>,
+                             hyp |-> Under([NoDev EXCEPT !.hypot = TRUE]),
+                             unsc |-> Under([NoDev EXCEPT !.unscaled = TRUE]),
+                             noanc |-> Under([NoDev EXCEPT !.noAnchor = TRUE])])>>)
 
 Init == IsCase(cs) /\ done = FALSE
 Next == ~done /\ done' = TRUE /\ cs' = cs
@@ -284,4 +398,8 @@ TK2Quick == {1, 7, 12, 18, 24, 30, 33, 39, 44, 50}
 TK2Thorough == 1 .. 50
 TK3Quick == {2, 14, 28, 32, 49}
 TK3Thorough == {2, 9, 14, 20, 23, 28, 32, 36, 41, 45, 49}
+ZeroInstrQuick == {0, 1, 4, 6, 10}
+ZeroInstrThorough == 0 .. 16
+L4Quick == {2}
+L4Thorough == 1 .. 2
 =============================================================================
